@@ -129,7 +129,7 @@ func Str(t *rapid.T, o TreeOpts, label string) []byte {
 		alpha = textAlphabet
 	}
 	c := rapid.IntRange(0, 199).Draw(t, label+"_cls")
-	if c == 0 && !o.NoBigStr {
+	if c == 137 && !o.NoBigStr { // (interior value: rapid favours the bounds of a range)
 		b := make([]byte, rapid.SampledFrom([]int{65, 255, 256, 32766, 32767, 32767, 32767}).Draw(t, label+"_biglen"))
 		f := rapid.Byte().Draw(t, label+"_fill")
 		if o.TextKeys {
@@ -140,7 +140,7 @@ func Str(t *rapid.T, o TreeOpts, label string) []byte {
 		}
 		return b
 	}
-	if c < 12 {
+	if c >= 150 && c < 162 {
 		// strings that look like other SNBT tokens
 		return []byte(rapid.SampledFrom([]string{"", "123", "1b", "1.5", "-", "+1", "1e5", "true", "false", "0x10", "1.", ".5", "1L", "-0.0", "Infinity", "NaN", "1f", "2d", "3s", "00", "-1"}).Draw(t, label))
 	}
